@@ -53,8 +53,75 @@ def run(ck):
     ck.clause("C02.9", "RefContigID names the map of every listed label: records are joined only on the same reference and strand "
                        "(as C08.4)")
     c08._eligibility(ck, {}, None, rule="C02.9", wiring=False)
+    records_frozen(ck, "C02.11")
     n = R.run_role_rule(ck, "C02.3", modules={"src.alignment.alignment_results", "src.alignment.aligner"})
     ck.floor("C02 role bindings judged", n, 40)
+
+
+# ---------------------------------------------------------------------------------------------------------- C02.11
+_HEADER_ATTRS = {"queryStartPosition", "queryEndPosition", "referenceStartPosition", "referenceEndPosition", "reverseStrand",
+                 "queryId", "referenceId", "queryLength", "referenceLength"}
+_CONTENT_ATTRS = {"segments", "alignedPairs"}
+
+
+def records_frozen(ck, rule):
+    """A record's header is derived once, in AlignmentResultRow.create, from the pairs it lists. Nothing may change the listed
+    content (segments / alignedPairs, the attribute or the list in place) or a header field afterwards: the row objects of the
+    first and second pass are written again after a join."""
+    import ast
+    from ..rules.effects import MUTATORS
+    from ..types import _iter_own_nodes
+    ck.clause(rule, "a record is not altered after its header was derived: no store into segments / alignedPairs (attribute, element "
+                    "or in-place method) or into a header field outside a constructor")
+    p = ck.ctx.p
+    n_fn = 0
+    for f in p.nontest_functions():
+        if f.is_lambda or not f.module.name.startswith("src.") or f.module.name.startswith("src.diagnostic"):
+            continue
+        n_fn += 1
+        in_init = f.name in ("__init__", "__post_init__", "__new__")
+
+        def base_is_own_self(attr_node):
+            return in_init and isinstance(attr_node.value, ast.Name) and attr_node.value.id == "self"
+        for node in _iter_own_nodes(f.node):
+            targets = []
+            if isinstance(node, ast.Assign):
+                targets = list(node.targets)
+            elif isinstance(node, (ast.AugAssign, ast.AnnAssign)) and getattr(node, "value", True) is not None:
+                targets = [node.target]
+            elif isinstance(node, ast.Delete):
+                targets = list(node.targets)
+            flat = []
+            while targets:
+                t = targets.pop()
+                if isinstance(t, (ast.Tuple, ast.List)):
+                    targets.extend(t.elts)
+                elif isinstance(t, ast.Starred):
+                    targets.append(t.value)
+                else:
+                    flat.append(t)
+            for t in flat:
+                if isinstance(t, ast.Attribute) and t.attr in (_CONTENT_ATTRS | _HEADER_ATTRS) and not base_is_own_self(t):
+                    ck.violation(rule, short(f) + ":" + t.attr, where(f, node),
+                                 f"`{ast.unparse(t)}` is re-assigned outside a constructor: the record's header and the pairs it "
+                                 "lists no longer describe the same alignment", found=ast.unparse(node)[:160],
+                                 required="a new record through AlignmentResultRow.create")
+                b = t
+                while isinstance(b, ast.Subscript):
+                    b = b.value
+                if b is not t and isinstance(b, ast.Attribute) and b.attr in _CONTENT_ATTRS:
+                    ck.violation(rule, short(f) + ":" + b.attr + "[]", where(f, node),
+                                 f"an element of `{ast.unparse(b)}` is replaced in place: a record that was already created (and is "
+                                 "written again in the 'all' / 'separate' files) now lists other pairs than its header was derived from",
+                                 found=ast.unparse(node)[:160], required="a new list / a new record")
+            if isinstance(node, ast.Call) and isinstance(node.func, ast.Attribute) and node.func.attr in MUTATORS and \
+                    isinstance(node.func.value, ast.Attribute) and node.func.value.attr in _CONTENT_ATTRS and \
+                    not base_is_own_self(node.func.value):
+                ck.violation(rule, short(f) + ":" + node.func.value.attr + "." + node.func.attr, where(f, node),
+                             f"`{ast.unparse(node.func.value)}` is changed in place by .{node.func.attr}(): the record's header was "
+                             "derived from the previous content", found=ast.unparse(node)[:160], required="a new list / a new record")
+    ck.ok(rule, "records-frozen", "src/", "no function outside a constructor stores into a record's content or header", f"{n_fn} functions")
+    ck.floor("C02.11 functions scanned", n_fn, 150)
 
 
 # ---------------------------------------------------------------------------------------------------------- C02.1
